@@ -249,6 +249,12 @@ fn bad_element(h: &mut Hist, class: Bad) -> Option<Vec<u8>> {
 
 fn garbage_headers(h: &mut Hist) -> Vec<Vec<u8>> {
     let mut v = vec![];
+    // valid announced headers: chained, on forks, on top of earlier announced ones (which may have
+    // gone stale in the meantime)
+    if h.rng.chance(4, 5) {
+        let n = h.rng.range(1, 4) as usize;
+        v.extend(h.hidden_header_chain(n));
+    }
     let n = h.rng.range(0, 4);
     for _ in 0..n {
         v.push(match h.rng.below(6) {
@@ -306,8 +312,19 @@ pub fn lane_admit(ctx: &mut Ctx) {
             if h.desync.is_some() || !ctx.time_left() {
                 break;
             }
+            if e % 3 == 2 {
+                valid_response(&mut h, ctx);
+                continue;
+            }
             let class = ALL_BAD[((k as usize) * 7 + e as usize * 5 + h.rng.usize_below(3)) % ALL_BAD.len()];
             experiment(&mut h, ctx, class);
+        }
+        // a run of valid responses with announced headers while the chain keeps growing
+        for _ in 0..experiments {
+            if h.desync.is_some() || !ctx.time_left() {
+                break;
+            }
+            valid_response(&mut h, ctx);
         }
         if let Some(d) = &h.desync {
             if ctx.cov.violations.iter().all(|v| v.case != k) {
@@ -324,6 +341,14 @@ fn experiment(h: &mut Hist, ctx: &mut Ctx, class: Bad) {
     let mut elements: Vec<Vec<u8>> = vec![];
     let mut prefix: Vec<(bitcoin::Block, H)> = vec![];
     let model_live_before = h.model.live_preorder();
+    // the class must be constructible in this state (before the model is touched)
+    if matches!(class, Bad::DuplicateUnstable) && h.model.live_count() < 2
+        || matches!(class, Bad::DuplicateAnchor) && h.model.stable_height() == 0
+        || matches!(class, Bad::DuplicateStable) && h.model.stable_chain.len() < 2
+        || matches!(class, Bad::ChildOfStable) && h.model.stable_chain.is_empty()
+    {
+        return;
+    }
     for _ in 0..n_before {
         let parent = h.pick_parent();
         let b = h.gen_block(&parent);
@@ -335,7 +360,16 @@ fn experiment(h: &mut Hist, ctx: &mut Ctx, class: Bad) {
         prefix.push((b, pb.hash));
         elements.push(bytes);
     }
-    let Some(bad) = bad_element(h, class) else { return };
+    let Some(bad) = bad_element(h, class) else {
+        // the prefix is already in the model: deliver it alone so that both stay in step
+        world::set_replies(vec![world::reply_complete(elements.clone(), vec![])]);
+        for _ in 0..7 {
+            let _ = world::heartbeat();
+        }
+        let bb = h.model.best_chains();
+        h.compare_anchor(ctx, &bb);
+        return;
+    };
     let bad_hash = parse::parse_header(&bad).map(|x| x.0);
     elements.push(bad.clone());
     // suffix: valid blocks that must be dropped together with the bad one
@@ -494,4 +528,58 @@ fn experiment(h: &mut Hist, ctx: &mut Ctx, class: Bad) {
         ctx.cov.sample(json!({"class": format!("{:?}", class), "position": position, "elements": elements.len(),
             "bad_element_prefix": hex::encode(&bad[..bad.len().min(48)]), "counters_after": [d1, i1]}));
     }
+}
+
+/// A response with valid blocks only (in parent-before-child order, on any live block) and
+/// announced headers of every kind: everything must be admitted and nothing may trap.
+fn valid_response(h: &mut Hist, ctx: &mut Ctx) {
+    let n = h.rng.range(0, 3) as usize;
+    let mut elements = vec![];
+    for _ in 0..n {
+        let parent = h.pick_parent();
+        let b = h.gen_block(&parent);
+        let bytes = gen::block_bytes(&b);
+        let pb = parse::parse_block(&bytes).unwrap();
+        h.model.accept(&pb, 1);
+        h.raw.insert(pb.hash, b.clone());
+        h.log.push(format!("block {} on {} (valid response)", short(&pb.hash), short(&pb.prev)));
+        elements.push(bytes);
+    }
+    let next = garbage_headers(h);
+    let (_r0, d0, i0) = world::error_counters();
+    ctx.cov.count("c10_valid_only_responses");
+    ctx.cov.add("c10_announced_headers_offered", next.len() as u64);
+    world::set_replies(vec![world::reply_complete(elements.clone(), next.clone())]);
+    for _ in 0..7 {
+        if let Out::Trap(m) = world::heartbeat() {
+            ctx.violation(
+                format!("heartbeat trapped while processing a response of valid blocks with {} announced headers: {}", next.len(), m),
+                None,
+                json!({"log": h.log, "announced": next.iter().map(|x| hex::encode(&x[..x.len().min(80)])).collect::<Vec<_>>()}),
+            );
+            h.desync = Some("trap".into());
+            return;
+        }
+    }
+    let (_r1, d1, i1) = world::error_counters();
+    ctx.cov.eval(Some(fp_str(&format!("c10valid|{}|{}|{}", n, next.len(), h.model.live_count()))));
+    if d1 != d0 || i1 != i0 {
+        ctx.violation(
+            format!("a response of {} valid blocks moved the error counters (deserialize +{}, insert +{})", n, d1 - d0, i1 - i0),
+            None,
+            json!({"log": h.log}),
+        );
+    }
+    let bb = h.model.best_chains();
+    if !h.compare_anchor(ctx, &bb) {
+        if ctx.cov.violations.iter().all(|v| v.case != ctx.case) {
+            ctx.violation(
+                format!("after a response of {} valid blocks the tree is not (previous tree + those blocks): {:?}", n, h.desync),
+                None,
+                json!({"log": h.log}),
+            );
+        }
+        return;
+    }
+    mon::check_c01(h, ctx, Some(3));
 }
